@@ -230,7 +230,7 @@ class World:
             m = rng.choice(["R", "U", None, None]) if d not in shaped else rng.choice(["R", "R", "U", "Z", None])
             if m and rng.random() < 0.15:
                 # same marker type, other fields (required attributes, life-cycle status): the contract looks at the type only
-                m = rng.choice(["Ra", "Rp", "Rc", "Rd", "Rx", "Rx"] if m == "R" else ["Ua", "Ud", "E", "Z", "T"])
+                m = rng.choice(["Ra", "Rp", "Rc", "Rd", "Rx", "Rx", "Rm", "Rm"] if m == "R" else ["Ua", "Ud", "E", "Z", "T", "Um"])
             if m:
                 self.markers[d] = m
         execs = rng.sample(self.accounts, rng.randint(1, 2))
@@ -314,6 +314,8 @@ class World:
             self.send(inst_line(f))
         line = inst_line(good)
         if rng.random() < 0.05:
+            line = "INSTX " + line[len("INST "):]      # the same message as JSON with a member the struct does not declare
+        elif rng.random() < 0.05:
             line = "INSTF %s %s" % (coins([(rng.randint(1, 100), rng.choice(["base", "qa", "nhash"]))] if rng.random() < 0.8 else
                                           [(0, "qa")]), line[len("INST "):])
         b = self.send(line)
@@ -707,7 +709,10 @@ class World:
             r["price"] = rng.choice(["0", "-1", "", "abc", "1e3", "1." + "0" * (p) + "1", ".5", "5.", "1_0",
                                      "0." + "0" * p + "5", "-0", "+0.0", r["price"] + "1", "1" + r["price"],
                                      "79228162514264337593543950336", "0.0000000000000000000000000001",
-                                     "1.00000000000000000000000000001"])
+                                     "1.00000000000000000000000000001",
+                                     # prices that parse but cannot be scaled by 10^precision within 96 bits
+                                     "79228162514264337593543950335", "1" + "0" * 27, "7922816251426433759354395033.5",
+                                     str(2 ** 96 // 10 ** min(p, 28) + rng.choice([0, 1, 7])), str(2 ** 96 // 10 ** min(p, 28) - 1)])
         elif f in ("id", "ask_id", "bid_id"):
             m = rng.random()
             if m < 0.5:
@@ -745,7 +750,7 @@ class World:
         if kind == "env":
             held = [a.base for a in self.asks.values()] + [b.quote_denom for b in self.bids.values() if isinstance(b, fmt.Bid)]
             d = rng.choice(held) if held and rng.random() < 0.5 else rng.choice(list(self.markers.keys()) + ["base", "qa", "cva"])
-            m = rng.choice(["R", "U", None, "Ra", "Rc", "Rp", "Ua", "E", "Rx", "Rx", "Z", "T"])
+            m = rng.choice(["R", "U", None, "Ra", "Rc", "Rp", "Ua", "E", "Rx", "Rx", "Z", "T", "Rm", "Um"])
             if m:
                 self.markers[d] = m
             else:
@@ -871,8 +876,9 @@ def migration_history(w, hn):
     rate = rng.choice(["0.1", "0.01", "0.5"])
     bidfee = rng.choice(["-", "%s=%s" % (enc(w.accounts[0]), enc(rate))])
     askfee = rng.choice(["-", "%s=%s" % (enc(w.accounts[1]), enc("0.01"))])
+    legacy_apprs = w.accounts[:1] if rng.random() > 0.1 else w.accounts[:1] + [rng.choice(["Approver_Legacy", "X", "ab", "CAROL"])]
     w.send("SEEDCFG %s ~ base %s qa %s %s %s %s [] [] %d %d" % (
-        enc("ats"), "cva", lst(w.accounts[:1]), lst(w.accounts[1:2]), askfee, bidfee, p, inc))
+        enc("ats"), "cva", lst(legacy_apprs), lst(w.accounts[1:2]), askfee, bidfee, p, inc))
     if rng.random() < 0.93:
         # half of the migration histories start inside the conversion window; the others at and around every
         # threshold and at malformed version strings
@@ -936,6 +942,7 @@ def migration_history(w, hn):
         # a well-formed log: fills/rejects at the bid price, in whole lots, with pro-rata fees
         done = rng.randint(0, lots - 1) if not finer else 0
         unrefunded = rng.random() < 0.08
+        late_events = rng.random() < 0.1
         evs, sb, sq, sf = [], 0, 0, 0
         left = done
         while left > 0:
@@ -948,7 +955,7 @@ def migration_history(w, hn):
             keep = rhu(Fraction(feeamt) * Fraction(total - sq - q_, total)) if feeamt else 0
             f_ = (feeamt - sf) - keep
             ff = str(f_) if (feeamt and (f_ > 0 or rng.random() < 0.3)) else "-"
-            evs.append("%s:%d:%d:%s" % (rng.choice("FJJ"), b_, q_, ff))
+            evs.append("%s:%d:%d:%s" % (rng.choice("FJJ") if not late_events else rng.choice("fjj"), b_, q_, ff))
             sb += b_; sq += q_; sf += f_ if ff != "-" else 0
         if rng.random() < 0.15:
             evs.append("R:%d:-" % 0)
@@ -970,7 +977,8 @@ def migration_history(w, hn):
     def migline():
         def maybe(f, pr=0.3):
             return f() if rng.random() < pr else None
-        ap = maybe(lambda: rng.choice([[], w.accounts[:2], ["X"], [w.accounts[2]]]))
+        ap = maybe(lambda: rng.choice([[], w.accounts[:2], ["X"], [w.accounts[2]], list(legacy_apprs), list(legacy_apprs[-1:]),
+                                       list(legacy_apprs) + [w.accounts[2]]]))
 
         def pair():
             r = rng.random()
